@@ -332,7 +332,10 @@ def check (params lines : List String) : CaseResult := Id.run do
                 else s!"cease_twice: cease-flow trace emitted {h.ceasePos.length} times")
   let late := h.afterCease.filter (· != "cease")
   let lateBoundary := late.filter (·.startsWith "boundary 0 ")
-  let lateOther := late.filter (fun t => !t.startsWith "boundary 0 ")
+  -- `pgin` (IncomingFlowProcessedTrace) is the parallel gateway's note that it HAS processed an incoming flow: it is
+  -- sent after the gateway released the tokens ("if any action has been taken, it has already happened"), so a token
+  -- released by a join in front of an end event can end the instance before the note is out. A note is not a token.
+  let lateOther := late.filter (fun t => !t.startsWith "boundary 0 " && !t.startsWith "pgin ")
   if !lateOther.isEmpty then
     r := add r s!"cease_not_last: {lateOther.length} flow traces after the cease-flow trace, first: {lateOther.headD ""}"
   if !lateBoundary.isEmpty then
